@@ -221,6 +221,10 @@ func (l *c18Lease) Revoke(ctx context.Context, id clientv3.LeaseID) (*clientv3.L
 	if mode == 2 {
 		return nil, errC18Lost
 	}
+	// etcd has dropped the lease and its keys; Session.Close sees the answer when the schedule says so
+	if l.g.wait(fmt.Sprintf("revoke-post:%d", int64(id))) == 0 {
+		return nil, errC18Aborted
+	}
 	return resp, err
 }
 
@@ -297,6 +301,7 @@ type c18Mgr struct {
 	rels    map[string]int    // rid -> Release calls parked in front of their etcd request
 	revokes map[string]bool   // gate ids of parked ReleaseAll lease revokes
 	relPost map[string]int    // rid -> Release calls whose request is applied but whose answer is held back
+	revPost []string          // gate ids of ReleaseAll revokes applied by etcd whose answer is held back
 }
 
 // flushRelPost delivers the held-back answers of m's Release requests.
@@ -310,6 +315,13 @@ func (w *c18World) flushRelPost(m *c18Mgr) {
 		}
 		delete(m.relPost, rid)
 	}
+	for _, gid := range m.revPost {
+		m.gate.open(gid, 1)
+		if s := w.next(); s.kind != "radone" {
+			w.t.Fatalf("C18 harness: unexpected signal after revoke answer: %+v", s)
+		}
+	}
+	m.revPost = nil
 }
 
 type c18World struct {
@@ -324,6 +336,7 @@ type c18World struct {
 	sig       chan c18Signal
 	granted   []clientv3.LeaseID // in grant order
 	baseRev   int64
+	orderFail string
 }
 
 func c18Prefix(kind string) string {
@@ -488,7 +501,11 @@ func (w *c18World) exec(ev c18Ev) (bool, int) {
 					mode = 2 // the revoke is applied, Session.Close gets an error (ReleaseAll ignores it)
 				}
 				m.gate.open(gid, mode)
-				if s := w.next(); s.kind != "radone" {
+				switch s := w.next(); {
+				case s.kind == "arrive" && strings.HasPrefix(s.id, "revoke-post:"):
+					m.revPost = append(m.revPost, s.id) // applied; ReleaseAll has not seen the answer yet
+				case s.kind == "radone":
+				default:
 					w.t.Fatalf("C18 harness: unexpected signal after revoke: %+v", s)
 				}
 				return true, -1
@@ -618,6 +635,15 @@ func (w *c18World) exec(ev c18Ev) (bool, int) {
 	case "releaseall":
 		// first step of ReleaseAll (closed, map cleared, session dropped); the LeaseRevoke of
 		// Session.Close stays parked until an "orphan" event expires that lease
+		// monitorSession must not hide what ReleaseAll itself does: Session.Close ends the
+		// keep-alive first, which wakes the monitor; it is made a no-op (session pointer replaced
+		// by a copy) when no acquire is in flight (flights hold the old pointer)
+		if s := m.session(); s != nil && len(m.flights) == 0 {
+			m.lm.mu.Lock()
+			cp := *s
+			m.lm.session = &cp
+			m.lm.mu.Unlock()
+		}
 		go func() {
 			m.releaseAll()
 			w.sig <- c18Signal{mgr: m, kind: "radone"}
@@ -625,6 +651,13 @@ func (w *c18World) exec(ev c18Ev) (bool, int) {
 		s := w.next()
 		if s.kind == "arrive" && strings.HasPrefix(s.id, "revoke:") {
 			m.revokes[s.id] = true
+			// order of the two steps of ReleaseAll: the ownership map is cleared BEFORE the revoke
+			// request is issued
+			for _, r := range w.res {
+				if m.ownsRes(r) {
+					w.orderFail = fmt.Sprintf("ReleaseAll of broker %d issued its LeaseRevoke while Owns(%q) is still true", m.idx+1, r)
+				}
+			}
 		} else if s.kind != "radone" {
 			w.t.Fatalf("C18 harness: unexpected signal after ReleaseAll: %+v", s)
 		}
@@ -757,6 +790,10 @@ func c18Run(t *testing.T, endpoints []string, root *clientv3.Client, cs c18Case)
 		}
 		o, after := w.observe()
 		o.res = code
+		if w.orderFail != "" {
+			setFail("releaseall-revokes-before-clearing", w.orderFail)
+			w.orderFail = ""
+		}
 		lazy := ev.K == "expirelazy" && w.mgrs[ev.B].session() != nil
 		if ev.K == "expirelazy" && !lazy {
 			ev.K = "expire" // fell back to the plain expiry
@@ -1126,6 +1163,8 @@ func c18Corpus() []c18Case {
 		{Kind: "group", NB: 2, Res: []string{"g1"}, Evs: c18Cat(c18Full(0, 0), one("rellocal", 0, 0), one("reldelete", 0, 0), c18Full(1, 0), c18Full(0, 0))},
 		// lost answers: the acquire transaction / the release delete are applied but the call fails
 		{Kind: "plain", NB: 2, Res: []string{"x"}, Evs: c18Cat([]c18Ev{{K: "acqbegin", B: 0, R: 0}, {K: "acqtxnlost", B: 0, R: 0}}, c18Full(1, 0), []c18Ev{{K: "acqbegin", B: 0, R: 0}, {K: "acqtxn", B: 0, R: 0}, {K: "reacqtxnlost", B: 0, R: 0}}, c18Full(0, 0), one("rellocal", 0, 0), one("reldeletelost", 0, 0), c18Full(1, 0))},
+		// ReleaseAll: the revoke is applied by etcd but unanswered; another broker acquires meanwhile
+		{Kind: "partition", NB: 2, Res: []string{"orders/0", "orders/1"}, Evs: c18Cat(c18Full(0, 0), c18Full(0, 1), one("releaseall", 0, 0), []c18Ev{{K: "orphan", L: 1}}, c18Full(1, 0), c18Full(1, 1), c18Full(0, 0))},
 		// graceful shutdown, then a late acquire
 		{Kind: "partition", NB: 2, Res: []string{"orders/0", "orders/1"}, Evs: c18Cat(c18Full(0, 0), c18Full(0, 1), one("releaseall", 0, 0), c18Full(1, 0), []c18Ev{{K: "orphan", L: 1}}, c18Full(1, 0), c18Full(0, 0))},
 		// restart between the two steps of ReleaseAll: the lease is never revoked, it expires later
